@@ -19,6 +19,7 @@ import (
 	"encoding/json"
 	"fmt"
 	"strings"
+	"time"
 
 	"github.com/notaryproject/notation-core-go/signature"
 )
@@ -208,6 +209,18 @@ func generateJWS(compact string, req *signature.SignRequest, certs []*x509.Certi
 	}, nil
 }
 
+// rfc3339Representable returns t in a form whose RFC 3339 text denotes the
+// same instant. RFC 3339 expresses a zone offset in hours and minutes only, so
+// a time whose offset is not a whole number of minutes (local mean time of a
+// tz database zone) would be written with the seconds of the offset dropped
+// and read back as a different instant; such a time is expressed in UTC.
+func rfc3339Representable(t time.Time) time.Time {
+	if _, offset := t.Zone(); offset%60 != 0 {
+		return t.UTC()
+	}
+	return t
+}
+
 // getSignerAttributes merge extended signed attributes and protected header to be signed attributes.
 func getSignedAttributes(req *signature.SignRequest, algorithm string) (map[string]interface{}, error) {
 	extAttrs := make(map[string]interface{})
@@ -242,19 +255,21 @@ func getSignedAttributes(req *signature.SignRequest, algorithm string) (map[stri
 		SigningScheme: req.SigningScheme,
 	}
 
+	signingTime := rfc3339Representable(req.SigningTime)
 	switch req.SigningScheme {
 	case signature.SigningSchemeX509:
-		jwsProtectedHeader.SigningTime = &req.SigningTime
+		jwsProtectedHeader.SigningTime = &signingTime
 	case signature.SigningSchemeX509SigningAuthority:
 		crit = append(crit, headerKeyAuthenticSigningTime)
-		jwsProtectedHeader.AuthenticSigningTime = &req.SigningTime
+		jwsProtectedHeader.AuthenticSigningTime = &signingTime
 	default:
 		return nil, fmt.Errorf("unsupported SigningScheme: `%v`", req.SigningScheme)
 	}
 
 	if !req.Expiry.IsZero() {
 		crit = append(crit, headerKeyExpiry)
-		jwsProtectedHeader.Expiry = &req.Expiry
+		expiry := rfc3339Representable(req.Expiry)
+		jwsProtectedHeader.Expiry = &expiry
 	}
 
 	jwsProtectedHeader.Critical = crit
